@@ -222,7 +222,7 @@ func (p *Program) verifyFunc(fi *FuncInfo, spec *FuncSpec) (c *Ctx, err error) {
 			if cl.Name != "" {
 				nm = "post:" + cl.Name
 			}
-			c.obligeNamed(nm+suffix, "post", fin.pc, t, endPos, cl.Text)
+			c.obligeSplit(nm+suffix, "post", fin.pc, t, endPos, cl.Text)
 			// antecedent reachability for implications (vacuity guard)
 			if antecedentCovers && cl.Expr.Kind == "implies" {
 				ant := x.specBool(penv, cl.Expr.L)
